@@ -80,6 +80,10 @@ def _pipeline(col, shard, ctx):
             for mb in (0.00001, 0.00012, 0.0002, 0.00031):
                 for ci in (0, 7):
                     cases.append({'what': 'pipeline', 'runs': [[n, mb]], 'kind': 'reverse', 'frame': 0, 'chain': ci})
+        # budgets that give a non-integer number of traces per batch between 10 and 100 (10.83, 19.83 for 6-sample traces), on sets long enough for the fraction to add up to whole batches
+        for n, mb in ((140, 65.5 / 2 ** 20), (151, 65.5 / 2 ** 20), (333, 65.5 / 2 ** 20), (500, 119.5 / 2 ** 20), (140, 0.9 / 2 ** 20), (1200, 660.5 / 2 ** 20)):
+            for ci in (0, 7):
+                cases.append({'what': 'pipeline', 'runs': [[n, mb]], 'kind': 'reverse', 'frame': 0, 'chain': ci})
         for n in (1, 4, 5, 7):
             for tab in ([[0, 3], [6, 2]], [[0, 3], [7, 2]], [[0, 4], [5, 1], [7, 3]], [[0, 2]], [[0, 5], [6, 1], [48, 2]], [[0, 5], [6, 1], [49, 2]]):
                 for ci in (0, 7):
